@@ -153,6 +153,25 @@ Definition judge_best (sense : Z) (o : option sampled_values) (ids : list N) (r 
         end
   end.
 
+(* best_feasible() / best_feasible_unrelaxed() must be get(id) of the id the corresponding *_id() accessor returns *)
+Fixpoint per_get (per : list tree) (k : N) : option tree :=
+  match per with
+  | [] => None
+  | L [kt; g; _] :: per' => match d_N kt with
+                            | Some k' => if (k' =? k)%N then Some g else per_get per' k
+                            | None => None
+                            end
+  | _ :: _ => None
+  end.
+Definition best_is_get (per : list tree) (b bs : tree) : bool :=
+  match ok_payload b with
+  | None => true
+  | Some kt => match d_N kt with
+               | Some k => match per_get per k with Some g => tree_eqb g bs | None => false end
+               | None => false
+               end
+  end.
+
 Definition run_C06 (case : tree) : tree :=
   match case with
   | L [A "eval_samples"; L [i; s]; r] =>
@@ -179,6 +198,8 @@ Definition run_C06 (case : tree) : tree :=
                         | None, None =>
                             if negb (Bool.eqb (is_err b1) (is_err bs1) && Bool.eqb (is_err b2) (is_err bs2))
                             then disagree "best_feasible() must fail exactly when best_feasible_id() does" (L [])
+                            else if negb (best_is_get per b1 bs1 && best_is_get per b2 bs2)
+                            then disagree "best_feasible() / best_feasible_unrelaxed() must return get(id) of the selected sample" (L [])
                             else judge_per I' Sm M T per 0
                         end
                   end
